@@ -7,6 +7,7 @@ numpy.interp for the single-spectrum inverse variance, analytic flux functions, 
 """
 import itertools
 import math
+import traceback
 
 import numpy as np
 
@@ -136,7 +137,8 @@ def clean(k, good, margin=5):
     return lo >= 0 and hi <= n - 1 and all(good[lo:hi + 1])
 
 
-def exc_sig(entry, e, noivar):
+def exc_sig(entry, e, noivar, trigger=''):
+    """<entry>:exception:<class>:<cause>; cause = a recognised trigger, else the innermost pydl function that raised."""
     tok = ''
     msg = repr(e)
     if isinstance(e, AttributeError) and noivar:
@@ -145,6 +147,13 @@ def exc_sig(entry, e, noivar):
         tok = ':ufunc-bitwise_or'
     elif 'bitwise_and' in msg:
         tok = ':ufunc-bitwise_and'
+    elif trigger:
+        tok = trigger
+    else:
+        tb = traceback.extract_tb(e.__traceback__)
+        fn = tb[-1].name if tb else ''
+        if fn and fn not in ('combine1fiber', 'preprocess_spectra', 'check_c1', 'check_c2', 'check_pp'):
+            tok = ':in-' + fn
     return '%s:exception:%s%s' % (entry, type(e).__name__, tok)
 
 
@@ -335,10 +344,8 @@ def check_pp(case):
         res = preprocess_spectra(flux.copy(), ivar.copy(), loglam=ll.copy(), zfit=np.array(z), **kw)
         nflux, nivar, nll = res
     except Exception as e:
-        sig = exc_sig(E, e, False)
-        if sig.endswith(type(e).__name__) and case['ll2d'] and not case.get('newll'):
-            sig += ':loglam-2d:newloglam=None'     # only when no more specific cause was recognised
-        return [(sig, repr(e)[:300])], 'raises-' + type(e).__name__
+        trig = ':loglam-2d:newloglam=None' if (case['ll2d'] and not case.get('newll')) else ''
+        return [(exc_sig(E, e, False, trig), repr(e)[:300])], 'raises-' + type(e).__name__
     bad = []
     nflux = np.asarray(nflux, dtype=float)
     nivar = np.asarray(nivar, dtype=float)
@@ -409,6 +416,9 @@ def tasks(tier):
         for hi in range(8):
             t.append({'f': 'c1', 'n': 10, 'lo': hi << 7, 'hi': (hi + 1) << 7, 'grids': ['same', 'half', 'wider'], 'aes': ['traditional', 'mean'],
                       'fi': [['sine', 'const']], 'scale': False})
+        # n = 14, every pattern whose zero-weight pixels lie in the first 8 with pixel 7 among them (contains the smallest
+        # patterns that make the band matrix of the spline fit numerically indefinite)
+        t.append({'f': 'c1', 'n': 14, 'lo': 128, 'hi': 256, 'grids': ['same', 'half'], 'aes': ['mean'], 'fi': [['sine', 'const']], 'scale': False})
         for g in GRIDS:
             t.append({'f': 'c1w', 'n': 14, 'grids': [g], 'aes': list(AES), 'fi': [['const', 'ramp']], 'scale': False})
         for hi in range(2):
